@@ -19,7 +19,7 @@ var (
 	c18Addrs    = []string{"0.0.0.0", "127.0.0.1", "::", "::1", "::ffff:1.2.3.4", "fe80::1", ""} // "" = bare-domain form
 	c18Seps     = []string{" ", "\t", "  ", " \t"}
 	c18Names    = []string{"example.org", "a.b.test", "x-1.test"}
-	c18Comments = []string{"", "#c", " #c", "\t#c", " # c x", " ## c", "#", " #", "  # 0.0.0.0 other.test"}
+	c18Comments = []string{"", "#c", " #c", "\t#c", " # c x", " ## c", "#", " #", "  # 0.0.0.0 other.test", " # see https://example.com/list", " # a@b.c | $x ^ * ||ads^$third-party"}
 	c18Trailing = []string{"", " ", "\t "}
 )
 
@@ -205,7 +205,7 @@ func init() {
 		})
 		c.Run.Set("evaluations", int64(len(lines)))
 		c.Run.Set("distinct_nontrivial", int64(len(lines)))
-		c.Run.Set("rule", fmt.Sprintf("grammar expansion: 7 address forms (incl. bare domain) x 4 separators x name sequences of length 1..%d over 3 names x 9 comment forms x 3 trailing blanks (+ mixed separators; thorough: 5..8 names over 2 names); every line distinct; each through NewRule, NewHostRule, HostRule.Match on listed/truncated/extended names and (quick: every third line) a one-line DNSEngine", maxNames))
+		c.Run.Set("rule", fmt.Sprintf("grammar expansion: 7 address forms (incl. bare domain) x 4 separators x name sequences of length 1..%d over 3 names x 11 comment forms x 3 trailing blanks (+ mixed separators; thorough: 5..8 names over 2 names); every line distinct; each through NewRule, NewHostRule, HostRule.Match on listed/truncated/extended names and (quick: every third line) a one-line DNSEngine", maxNames))
 		c.Run.Set("exhaustive", exhaustive)
 		c.Run.Assumption("a double '#' is generated only after a space (otherwise the line is element-hiding syntax)")
 	})
